@@ -509,6 +509,13 @@ def _nonzero(x):
     return np.nonzero(conc)
 
 
+@implements(np.unique)
+def _unique(x, *a, **k):
+    if isinstance(x, SymArray):
+        return np.unique(x.native(), *a, **k)      # concrete data only (symbolic -> Unsupported)
+    return np.unique(x, *a, **k)
+
+
 @implements(np.shape)
 def _shape(x):
     return x.shape
